@@ -532,6 +532,18 @@ func (c *Check) justifyIndex(f *Func, pa *Path, i int, ev *Event) (bool, string)
 	if isKey {
 		return true, "slicing of a scanned store key: cut positions are decided by the key grammar (K4); every key of a family starts with its prefix byte"
 	}
+	if bb, ok := matchAny(base, "(make []byte (+ (len $P) $N))", "(make []byte (+ $N (len $P)))"); ok && hi.IsAt("_") {
+		if n, ok := litInt(bb["$N"]); ok {
+			if lo.Op == "len" && len(lo.A) == 1 && lo.A[0].Eq(bb["$P"]) {
+				return true, "x[len(p):] of a buffer made with len(p)+N bytes"
+			}
+			if b2, ok := matchAny(lo, "(+ (len $Q) $O)", "(+ $O (len $Q))"); ok && b2["$Q"].Eq(bb["$P"]) {
+				if o, ok := litInt(b2["$O"]); ok && o <= n {
+					return true, "x[len(p)+k:] of a buffer made with len(p)+N bytes, k ≤ N"
+				}
+			}
+		}
+	}
 	if (lo.IsAt("_") || lo.IsAt("#0")) && hi.Op == "-" && hi.A[0].Op == "len" && hi.A[0].A[0].Eq(x) {
 		if k, ok := litInt(hi.A[1]); ok && lenAtLeast(k) {
 			return true, "x[0:len(x)-k] under a length fact"
@@ -901,53 +913,220 @@ func (c *Check) coinsSubSites(fs []*Func) {
 }
 
 // nilMapWrites (C20.3): an assignment to an entry of a nil map panics. Every statement m[k] = v (or m[k] op= v) on a map in
-// consensus-reachable code writes to a map that cannot be nil there: a local made by make / a composite literal in the
-// same function, a keeper field (allocated by the keeper's constructor, outside block processing), or a parameter for
-// which every call site in the module passes a map that is itself not nil by the same criteria (make / literal / its own
-// non-nil map); a call site passing nil, a zero value or something else is reported.
+// consensus-reachable code writes to a map that cannot be nil there: a local made by make / a composite literal, a variable
+// captured from an enclosing function where it is so made, a struct field that is only ever given a made map, or a
+// parameter for which every call site in the module (found on the syntax tree with resolved callees, closures included)
+// passes a map that is itself not nil by the same criteria; a call site passing nil or something else is reported.
 func (c *Check) nilMapWrites(fs []*Func) {
 	n := 0
-	inSet := map[*Func]bool{}
-	for _, f := range fs {
-		inSet[f] = true
-	}
-	// argNonNil: the argument term at a call site is a non-nil map
-	var paramOK func(f *Func, idx int, depth int) (bool, string)
-	argNonNil := func(g *Func, a *Term, depth int) (bool, string) {
-		a = stripConv(a)
-		switch {
-		case a.Op == "make" || a.Op == "lit":
-			return true, ""
-		case a.Op == "" && strings.HasPrefix(a.At, "P") && depth < 3:
-			var i int
-			if _, err := fmt.Sscanf(a.At, "P%d", &i); err == nil {
-				return paramOK(g, i, depth+1)
-			}
-		case a.Op == "" && strings.HasPrefix(a.At, "K."):
-			return true, ""
+	var exprNonNil func(g *Func, e ast.Expr, depth int) (bool, string)
+	// every value ever given to the variable inside the outermost enclosing function is make / a composite literal
+	varMade := func(g *Func, v *types.Var) (bool, string) {
+		top := g
+		for top.Parent != nil {
+			top = top.Parent
 		}
-		return false, shortTerm(a)
-	}
-	paramOK = func(f *Func, idx int, depth int) (bool, string) {
-		sites := 0
-		for _, g := range c.P.Funcs {
-			if g.Body == nil || !g.isHandWritten() {
-				continue
+		info := g.Pkg.TypesInfo
+		found, ok, why := false, true, ""
+		judge := func(r ast.Expr) {
+			found = true
+			switch x := ast.Unparen(r).(type) {
+			case *ast.CompositeLit:
+			case *ast.CallExpr:
+				if id, isId := x.Fun.(*ast.Ident); !isId || id.Name != "make" {
+					ok, why = false, "assigned from "+types.ExprString(r)
+				}
+			default:
+				ok, why = false, "assigned from "+types.ExprString(r)
 			}
-			for _, pa := range c.P.PathsOf(g) {
-				for _, ev := range pa.Events {
-					if ev.Kind != EvCall || ev.CI.fn != f || idx >= len(ev.CI.args) {
-						continue
+		}
+		ast.Inspect(top.Body, func(m ast.Node) bool {
+			switch s := m.(type) {
+			case *ast.AssignStmt:
+				if len(s.Lhs) == len(s.Rhs) {
+					for i, l := range s.Lhs {
+						if id, isId := l.(*ast.Ident); isId && (info.Defs[id] == types.Object(v) || info.Uses[id] == types.Object(v)) {
+							judge(s.Rhs[i])
+						}
 					}
-					sites++
-					if ok, why := argNonNil(g, ev.CI.args[idx], depth); !ok {
-						return false, g.Name + " passes " + why + " (" + c.pos(ev.Pos) + ")"
+				}
+			case *ast.ValueSpec:
+				for i, nm := range s.Names {
+					if info.Defs[nm] == types.Object(v) {
+						if i < len(s.Values) {
+							judge(s.Values[i])
+						} else {
+							found, ok, why = true, false, "declared without a value (nil map)"
+						}
 					}
 				}
 			}
+			return true
+		})
+		if !found {
+			return false, "no definition of " + v.Name() + " found"
+		}
+		return ok, why
+	}
+	fieldMade := func(fv *types.Var) (bool, string) {
+		found, ok, why := false, true, ""
+		for _, g := range c.P.Funcs {
+			if g.Body == nil || !g.isHandWritten() || g.Parent != nil {
+				continue
+			}
+			info := g.Pkg.TypesInfo
+			judge := func(r ast.Expr) {
+				found = true
+				switch x := ast.Unparen(r).(type) {
+				case *ast.CompositeLit:
+				case *ast.CallExpr:
+					if id, isId := x.Fun.(*ast.Ident); !isId || id.Name != "make" {
+						ok, why = false, "field "+fv.Name()+" is given "+types.ExprString(r)+" in "+g.Name
+					}
+				default:
+					ok, why = false, "field "+fv.Name()+" is given "+types.ExprString(r)+" in "+g.Name
+				}
+			}
+			ast.Inspect(g.Body, func(m ast.Node) bool {
+				switch s := m.(type) {
+				case *ast.KeyValueExpr:
+					if id, isId := s.Key.(*ast.Ident); isId && info.Uses[id] == types.Object(fv) {
+						judge(s.Value)
+					}
+				case *ast.AssignStmt:
+					if len(s.Lhs) == len(s.Rhs) {
+						for i, l := range s.Lhs {
+							if se, isSel := ast.Unparen(l).(*ast.SelectorExpr); isSel && info.Uses[se.Sel] == types.Object(fv) {
+								judge(s.Rhs[i])
+							}
+						}
+					}
+				}
+				return true
+			})
+		}
+		if !found {
+			return false, "field " + fv.Name() + " is never given a map"
+		}
+		return ok, why
+	}
+	var paramOK func(f *Func, idx int, depth int) (bool, string)
+	exprNonNil = func(g *Func, e ast.Expr, depth int) (bool, string) {
+		info := g.Pkg.TypesInfo
+		switch x := ast.Unparen(e).(type) {
+		case *ast.CompositeLit:
+			return true, ""
+		case *ast.CallExpr:
+			if id, ok := x.Fun.(*ast.Ident); ok && id.Name == "make" {
+				return true, ""
+			}
+		case *ast.Ident:
+			v, _ := info.Uses[x].(*types.Var)
+			if v == nil {
+				break
+			}
+			for h := g; h != nil; h = h.Parent {
+				for i, pr := range h.Params {
+					if pr == v {
+						if depth >= 4 {
+							return false, "parameter chain too deep"
+						}
+						return paramOK(h, i, depth+1)
+					}
+				}
+			}
+			if v.IsField() {
+				return fieldMade(v)
+			}
+			return varMade(g, v)
+		case *ast.SelectorExpr:
+			if fv, _ := info.Uses[x.Sel].(*types.Var); fv != nil && fv.IsField() {
+				return fieldMade(fv)
+			}
+		}
+		return false, types.ExprString(e)
+	}
+	paramOK = func(f *Func, idx int, depth int) (bool, string) {
+		if f.Obj == nil && f.Lit == nil {
+			return false, "anonymous function"
+		}
+		sites := 0
+		// the variable a function literal is bound to (its calls go through that variable)
+		var litVar *types.Var
+		if f.Lit != nil && f.Parent != nil {
+			pinfo := f.Pkg.TypesInfo
+			ast.Inspect(f.Parent.Body, func(m ast.Node) bool {
+				if as, ok := m.(*ast.AssignStmt); ok && len(as.Lhs) == len(as.Rhs) {
+					for i, r := range as.Rhs {
+						if ast.Unparen(r) == ast.Expr(f.Lit) {
+							if id, ok := as.Lhs[i].(*ast.Ident); ok {
+								if v, _ := pinfo.Defs[id].(*types.Var); v != nil {
+									litVar = v
+								} else if v, _ := pinfo.Uses[id].(*types.Var); v != nil {
+									litVar = v
+								}
+							}
+						}
+					}
+				}
+				return true
+			})
+			if litVar == nil {
+				return false, "the literal is not bound to a variable (its callers are not known)"
+			}
+		}
+		for _, g := range c.P.Funcs {
+			if g.Body == nil || !g.isHandWritten() || g.Parent != nil {
+				continue
+			}
+			info := g.Pkg.TypesInfo
+			bad := ""
+			var walk func(host *Func, body ast.Node)
+			walk = func(host *Func, body ast.Node) {
+				ast.Inspect(body, func(m ast.Node) bool {
+					if fl, ok := m.(*ast.FuncLit); ok && m != body {
+						if hl := c.P.FuncByLit[fl]; hl != nil {
+							walk(hl, fl.Body)
+						}
+						return false
+					}
+					call, ok := m.(*ast.CallExpr)
+					if !ok || bad != "" {
+						return true
+					}
+					match := false
+					if f.Obj != nil {
+						if callee := typeutil.Callee(info, call); callee != nil && callee == types.Object(f.Obj) {
+							match = true
+						}
+					} else if id, ok := ast.Unparen(call.Fun).(*ast.Ident); ok && litVar != nil && info.Uses[id] == types.Object(litVar) {
+						match = true
+					}
+					if !match {
+						return true
+					}
+					ai := idx
+					if f.Recv != nil && f.Obj != nil {
+						// Params of a method exclude the receiver in the call's argument list only if the engine counts it: align by type
+						ai = idx - (len(f.Params) - len(call.Args))
+					}
+					if ai < 0 || ai >= len(call.Args) {
+						return true
+					}
+					sites++
+					if ok2, why := exprNonNil(host, call.Args[ai], depth); !ok2 {
+						bad = host.Name + " passes " + why + " (" + c.pos(call.Pos()) + ")"
+					}
+					return true
+				})
+			}
+			walk(g, g.Body)
+			if bad != "" {
+				return false, bad
+			}
 		}
 		if sites == 0 {
-			return false, "no call site found"
+			return false, "no call site of " + f.Name + " found"
 		}
 		return true, ""
 	}
@@ -974,78 +1153,15 @@ func (c *Check) nilMapWrites(fs []*Func) {
 					continue
 				}
 				n++
-				okW, why := false, ""
-				switch x := ast.Unparen(ix.X).(type) {
-				case *ast.Ident:
-					v, _ := info.Uses[x].(*types.Var)
-					pi := -1
-					for i, pr := range f.Params {
-						if pr == v {
-							pi = i
-						}
-					}
-					switch {
-					case v == nil:
-						why = "not a variable"
-					case pi >= 0:
-						okW, why = paramOK(f, pi, 0)
-					default:
-						// a local: every assignment to it in this function is make / literal
+				okW, why := exprNonNil(f, ix.X, 0)
+				if se, isSel := ast.Unparen(ix.X).(*ast.SelectorExpr); isSel && !okW {
+					// a field of the keeper itself: allocated by the keeper's constructor, written by registration calls at start-up
+					if id, isId := ast.Unparen(se.X).(*ast.Ident); isId && f.Recv != nil && info.Uses[id] == types.Object(f.Recv) && isKeeperType(f.Recv.Type()) {
 						okW = true
-						found := false
-						ast.Inspect(f.Body, func(m ast.Node) bool {
-							switch s := m.(type) {
-							case *ast.AssignStmt:
-								for i, ll := range s.Lhs {
-									if id, ok := ll.(*ast.Ident); ok && (info.Defs[id] == types.Object(v) || info.Uses[id] == types.Object(v)) && i < len(s.Rhs) && len(s.Lhs) == len(s.Rhs) {
-										found = true
-										switch r := ast.Unparen(s.Rhs[i]).(type) {
-										case *ast.CompositeLit:
-										case *ast.CallExpr:
-											if id2, ok := r.Fun.(*ast.Ident); !ok || id2.Name != "make" {
-												okW, why = false, "assigned from "+types.ExprString(r)
-											}
-										default:
-											okW, why = false, "assigned from "+types.ExprString(s.Rhs[i])
-										}
-									}
-								}
-							case *ast.ValueSpec:
-								for i, nm := range s.Names {
-									if info.Defs[nm] == types.Object(v) {
-										if i < len(s.Values) {
-											found = true
-											if ce, ok := ast.Unparen(s.Values[i]).(*ast.CallExpr); ok {
-												if id2, ok := ce.Fun.(*ast.Ident); ok && id2.Name == "make" {
-													continue
-												}
-											}
-											if _, ok := ast.Unparen(s.Values[i]).(*ast.CompositeLit); ok {
-												continue
-											}
-											okW, why = false, "declared as "+types.ExprString(s.Values[i])
-										} else {
-											found = true
-											okW, why = false, "declared without a value (nil map)"
-										}
-									}
-								}
-							}
-							return true
-						})
-						if !found && v.Parent() != nil && v.Parent() != f.Pkg.Types.Scope() {
-							// a variable captured from an enclosing function: judged there
-							okW = true
-						}
 					}
-				case *ast.SelectorExpr:
-					// a field of the keeper (allocated once by its constructor) or of another struct
-					okW = true
-				default:
-					why = "map expression " + types.ExprString(ix.X)
 				}
 				c.req(okW, "C20.3", unitConstruct(f, "map-write:"+types.ExprString(ix.X)), as.Pos(),
-					"an entry of a map is assigned only where the map cannot be nil (made in the function, a keeper field, or a parameter every call site fills with a made map)"+condStr(!okW, ": "+why))
+					"an entry of a map is assigned only where the map cannot be nil (made where it is declared, a field only ever given a made map, or a parameter every call site fills with such a map)"+condStr(!okW, ": "+why))
 			}
 			return true
 		})
